@@ -43,7 +43,7 @@ theorem setAt_map {β} (g : TRes → β) (l : List TRes) (i : Nat) (f : TRes →
     | succ i => simp [setAt_succ, ih]
 
 theorem cyclic_none_core (nn nc : Bool) (chain : List TRes) (r0 : TRes) (rest : List TRes) (hc : chain = r0 :: rest)
-    (hN : r0.atoms.contains (str "N") = true) (hC : (chain.getLastD r0).atoms.contains (str "C") = true) :
+    (hN : r0.atoms.contains (str "N") = true) (hC : (ringEnd chain r0).atoms.contains (str "C") = true) :
     assignTermini nn nc true chain = some chain := by
   subst hc
   simp only [assignTermini]
@@ -144,6 +144,27 @@ theorem lastScan_tail (pre tail : List TRes) (a : TRes) (ha : a.kind = .amino)
     have n2 : tail[k].kind ≠ .nucleic := by rcases h1 with h | h <;> simp [h]
     simp only [n1, n2, h2, h3, if_false, decide_false, Bool.or_false, Bool.false_eq_true]
     exact ih (by omega)
+
+/-- the ring end of a chain whose last amino residue is followed only by waters / hetero groups is that
+amino residue (the empty tail included) -/
+theorem ringEnd_through_trailing (pre tail : List TRes) (a d : TRes) (ha : a.kind = .amino)
+    (hk : ∀ r ∈ tail, (r.kind = .water ∨ r.kind = .other) ∧ r.name ≠ str "NH2" ∧ r.name ≠ str "NME") :
+    ringEnd (pre ++ [a] ++ tail) d = a := by
+  have hscan := lastScan_tail pre tail a ha hk tail.length (Nat.le_refl _)
+  have hlen : (pre ++ [a] ++ tail).length = pre.length + 1 + tail.length := by simp; omega
+  unfold ringEnd
+  rw [hlen, hscan]
+  simp
+
+theorem cyclic_through_trailing_core (nn nc : Bool) (pre tail : List TRes) (r0 a : TRes)
+    (hc : ∃ rest, pre ++ [a] ++ tail = r0 :: rest) (ha : a.kind = .amino)
+    (hk : ∀ r ∈ tail, (r.kind = .water ∨ r.kind = .other) ∧ r.name ≠ str "NH2" ∧ r.name ≠ str "NME")
+    (hN : r0.atoms.contains (str "N") = true) (hC : a.atoms.contains (str "C") = true) :
+    assignTermini nn nc true (pre ++ [a] ++ tail) = some (pre ++ [a] ++ tail) := by
+  obtain ⟨rest, hrest⟩ := hc
+  apply cyclic_none_core nn nc _ r0 rest hrest hN
+  rw [ringEnd_through_trailing pre tail a r0 ha hk]
+  exact hC
 
 theorem cterm_through_trailing_core (nn nc : Bool) (r0 rl : TRes) (mid tail : List TRes)
     (ha : ∀ r ∈ r0 :: mid ++ [rl], r.kind = .amino) (ht : tail ≠ [])
